@@ -5,3 +5,4 @@ Import ListNotations.
 Definition c11_grace_ms : N := 5000%N.
 Definition c11_grace2_ms : N := 5000%N.
 Definition c11_wait_delay_ms : N := 5000%N.
+Definition c11_response_timeout_ms : N := 10000%N.
